@@ -155,7 +155,9 @@ def run_ranges(binary, d, coll, algo, layout, grid, ranges, timeout, tag, nranks
         elif line.startswith("HARNESS-ERROR"):
             raise SystemExit("C29: " + line + " (exit 2)")
     W = nranks or world(grid)
-    cur = struct.unpack("32i", open(score, "rb").read(128))[:W]
+    raw = open(score, "rb").read(384)
+    cur = struct.unpack("32i", raw[:128])[:W]
+    res.last = sorted(set(c for c in struct.unpack("32i", raw[256:384])[:W] if c >= 0), reverse=True)
     os.unlink(score)
     res.inprog = sorted(set(c for c in cur if c >= 0))
     res.deadlock = "Deadlock detected" in res.err
@@ -307,10 +309,14 @@ def run_piece(task):
         # a case must see the same world in a batch and when it is re-run alone
         return run_ranges(binary, d, coll, algo, layout, grid, rg, to, tag, minsize=out["minsize"])
 
+    def upto(cid):
+        """the ranges of the current simulation up to and including cid: the context a sequence-dependent failure needs"""
+        return [(a, min(b, cid + 1)) for a, b in pending if a <= cid]
+
     def harvest(res, limit):
         for cid, b in res.bad.items():
             if cid < limit and in_ranges(pending, cid):
-                out["failures"].append((cid, bad_kind(b), bad_text(b)))
+                out["failures"].append((cid, bad_kind(b), bad_text(b), upto(cid)))
         for cid, e in res.errcode.items():
             if cid < limit and in_ranges(pending, cid):
                 out["errcodes"].append((cid, "MPI error class %s" % e.get("class")))
@@ -368,19 +374,22 @@ def run_piece(task):
                 out["minsize"] = 2
                 if go([(0, 0)], 30.0).complete:
                     ones = [i for i in ids if cells[i][0] == "np=1"]
-                    out["failures"] += [(i, kind + ":comm-creation", text) for i in ones]
+                    out["failures"] += [(i, kind + ":comm-creation", text, [(i, i + 1)]) for i in ones]
                     pending = _compress([i for i in ids if cells[i][0] != "np=1"])
                     continue
                 out["minsize"] = 1
             if not r0.complete:   # the algorithm breaks communicator creation / finalisation with no case at all
                 kind, text = classify(r0)
-                out["failures"].append((ids[0], kind + ":setup", text))
+                out["failures"].append((ids[0], kind + ":setup", text, [(ids[0], ids[0] + 1)]))
                 out["setup_failure"] = sum(b - a for a, b in pending)
                 pending = []
                 break
             lo, hi = 0, len(ids)          # invariant: prefix ids[:hi] fails, ids[:lo] passes
-            if len(ids) > 1 and not go([(ids[0], ids[0] + 1)], 30.0).complete:
-                hi = 1                    # usual suspect: creating the communicator of the first case
+            suspect = next((c for c in res.last[:2] if c in ids and not go([(c, c + 1)], 60.0).complete), None)
+            if suspect is not None:       # usual suspect: the case some rank started last fails alone in the same way
+                lo, hi = ids.index(suspect), ids.index(suspect) + 1
+            elif len(ids) > 1 and not go([(ids[0], ids[0] + 1)], 60.0).complete:
+                hi = 1                    # or creating the communicator of the first case
             while hi - lo > 1:
                 mid = (lo + hi) // 2
                 if go(_compress(ids[:mid]), timeout_for(mid, algo)).complete:
@@ -389,7 +398,7 @@ def run_piece(task):
                     hi = mid
             culprit = ids[hi - 1]
             kind, text = classify(res)
-            out["failures"].append((culprit, kind + ":outside-case", text))
+            out["failures"].append((culprit, kind + ":outside-case", text, upto(culprit)))
             pending = subtract(pending, ids[0], culprit)
             cut_cell(culprit, kind + ":outside-case")
             continue
@@ -419,7 +428,7 @@ def run_piece(task):
         if kind == "refused":
             out["refused"].append((culprit, text))
         else:
-            out["failures"].append((culprit, kind, text))
+            out["failures"].append((culprit, kind, text, upto(culprit)))
         pending = subtract(pending, limit, culprit)
         if kind != "refused":
             cut_cell(culprit, kind)
@@ -430,7 +439,7 @@ def run_piece(task):
 
 def confirm(task):
     """Rule 3: the smallest case of a failure class is re-run alone, twice, and must fail identically both times."""
-    binary, d, coll, algo, layout, grid, cids, batch_kind, nps, minsize = task
+    binary, d, coll, algo, layout, grid, cids, batch_kind, nps, minsize, context = task
     tag = "cf-%s-%s-%s-%d" % (coll, algo, layout, os.getpid())
     tried = []
     for cid in cids:
@@ -449,7 +458,25 @@ def confirm(task):
             return {"ok": True, "cid": cid, "kind": got[0][0], "text": got[0][1], "tried": tried,
                     "minsize": 1 if nps[cid] == 1 else minsize}
         if got[0][0] != got[1][0]:
-            break
+            return {"ok": False, "tried": tried}
+    # not reproducible alone: a failure that needs the library state left by the preceding cases of its simulation.
+    # Re-run that sequence, twice; it must fail at the same case in the same way.
+    cid = cids[0]
+    got = []
+    for _ in range(2):
+        r = run_ranges(binary, d, coll, algo, layout, grid, context, timeout_for(sum(b - a for a, b in context), algo), tag,
+                       minsize=minsize)
+        if cid in r.bad and (r.complete or not r.inprog or cid < r.inprog[0]):
+            k, t = bad_kind(r.bad[cid]), bad_text(r.bad[cid])
+        elif not r.complete and (cid in r.inprog or (not r.inprog and cid in r.last[:1])):
+            k, t = classify(r)
+        else:
+            k, t = "ok", ""
+        got.append((k, t))
+    tried.append((cid, ["in-sequence:" + g[0] for g in got]))
+    if got[0][0] == got[1][0] and got[0][0] not in ("ok", "refused"):
+        return {"ok": True, "cid": cid, "kind": got[0][0] + ":after-other-cases", "text": got[0][1], "tried": tried,
+                "minsize": minsize, "ranges": context}
     return {"ok": False, "tried": tried}
 
 
@@ -507,7 +534,10 @@ def _run(ctx, binary, d):
     cells = {c: [(np_class(x["np"]), count_class(x["count"], x["np"])) for x in cl] for c, cl in case_lists.items()}
     cost = lambda s: len(case_lists[s[0]]) * (25 if s[1] == "automatic" else 1)
     # largest first (makespan), the "automatic" pseudo-algorithms (they run every other algorithm in turn) last
-    order = sorted(shards, key=lambda s: (s[1] != "automatic", cost(s)), reverse=True)
+    # and, before everything, the algorithms without a known finding: that is where a failure would be news, and the
+    # known-bad ones are the expensive ones (every dead simulation is restarted)
+    bad = set(k.split(" ", 1)[0] for k, _ in common.load_known(ctx.prop)[0])
+    order = sorted(shards, key=lambda s: ("%s/%s" % (s[0], s[1]) not in bad, s[1] != "automatic", cost(s)), reverse=True)
     if ctx.seed:
         random.Random(ctx.seed).shuffle(order)
     end = ctx.deadline.end - (15 if ctx.quick else 90)      # keep time for the confirmations and the report
@@ -556,8 +586,9 @@ def _run(ctx, binary, d):
                 continue
             coll, algo, layout = shard
             fl = sorted(x for p in a["pieces"] for x in p["failures"])
-            for cid, kind, text in fl:
+            for cid, kind, text, context in fl:
                 g = groups.setdefault((coll, algo, kind), {"layout": layout, "cases": [], "text": text, "n": 0, "other": 0,
+                                                           "context": context,
                                                            "minsize": max(p["minsize"] for p in a["pieces"])})
                 if g["layout"] == layout:
                     g["cases"].append(cid)
@@ -565,7 +596,7 @@ def _run(ctx, binary, d):
                     g["other"] += 1
         keys = list(groups)
         conf = list(ex.map(confirm, [(binary, d, k[0], k[1], groups[k]["layout"], grid, groups[k]["cases"][:3], k[2],
-                                      {c: case_lists[k[0]][c]["np"] for c in groups[k]["cases"][:3]}, groups[k]["minsize"]) for k in keys]))
+                                      {c: case_lists[k[0]][c]["np"] for c in groups[k]["cases"][:3]}, groups[k]["minsize"], groups[k]["context"]) for k in keys]))
     summarize(ctx, acc, shards, case_lists, grid, algos, groups, dict(zip(keys, conf)))
 
 
@@ -610,26 +641,30 @@ def summarize(ctx, acc, shards, case_lists, grid, algos, groups, conf):
             tab = refused_tab if t == "r" else err_tab
             k = "%s/%s %s: %s" % (coll, algo, layout, m)
             tab[k] = tab.get(k, 0) + 1
-    violations, unstable, seen = [], [], {}
+    violations, unstable, merged = [], [], {}
     for (coll, algo, bkind), g in sorted(groups.items()):
         c = conf[(coll, algo, bkind)]
         if not c["ok"]:
             unstable.append({"shard": "%s/%s/%s" % (coll, algo, g["layout"]), "batch_kind": bkind, "cases": g["cases"][:5],
                              "alone": c["tried"], "text": g["text"][:200]})
             continue
+        # one failure class per (collective, algorithm, kind confirmed alone): several batch symptoms may map to it
+        m = merged.setdefault((coll, algo, c["kind"]), {"n": 0, "other": 0, "rep": None})
+        m["n"] += len(g["cases"])
+        m["other"] += g["other"]
+        rank = (LAYOUTS.index(g["layout"]), c["cid"])
+        if m["rep"] is None or rank < m["rep"][0]:
+            m["rep"] = (rank, g, c)
+    for (coll, algo, kind), m in sorted(merged.items()):
+        _, g, c = m["rep"]
         case = case_lists[coll][c["cid"]]
-        key = case_key(coll, algo, g["layout"], case, c["kind"])
-        n = len(g["cases"])
-        if key in seen:          # two batch symptoms of one failure class
-            seen[key].what += "; +%d case(s) seen as %s in a batch" % (n, bkind)
-            continue
+        key = case_key(coll, algo, g["layout"], case, kind)
         what = "%s: %d case%s of the %s grid%s; smallest: %s -> %s" % (
-            c["kind"], n, "" if n == 1 else "s", ctx.tier,
-            (" (+%d with the other layout)" % g["other"]) if g["other"] else "", describe(case, g["layout"]), c["text"][:300])
-        v = Violation(key, what, {"coll": coll, "algo": algo, "layout": g["layout"], "grid": grid, "id": c["cid"],
-                                  "params": case, "kind": c["kind"], "minsize": c["minsize"]})
-        seen[key] = v
-        violations.append(v)
+            kind, m["n"], "" if m["n"] == 1 else "s", ctx.tier,
+            (" (+%d with the other layout)" % m["other"]) if m["other"] else "", describe(case, g["layout"]), c["text"][:300])
+        violations.append(Violation(key, what, {"coll": coll, "algo": algo, "layout": g["layout"], "grid": grid, "id": c["cid"],
+                                                "params": case, "kind": kind, "minsize": c["minsize"],
+                                                "ranges": c.get("ranges") or [(c["cid"], c["cid"] + 1)]}))
     if unstable:
         for u in unstable[:20]:
             common.log("C29: failure does not reproduce identically when its case is re-run alone:", json.dumps(u))
@@ -687,15 +722,20 @@ def replay(ctx, case):
         setup_dir(d)
         c = case["case"]
         tag = "replay-%d" % os.getpid()
-        res = run_ranges(binary, d, c["coll"], c["algo"], c["layout"], c["grid"], [(c["id"], c["id"] + 1)], 60.0, tag, minsize=c.get("minsize", 1))
+        ranges = [tuple(r) for r in c.get("ranges") or [(c["id"], c["id"] + 1)]]
+        res = run_ranges(binary, d, c["coll"], c["algo"], c["layout"], c["grid"], ranges,
+                         timeout_for(sum(b - a for a, b in ranges), c["algo"]), tag, minsize=c.get("minsize", 1))
         print("case: %s/%s %s" % (c["coll"], c["algo"], describe(c["params"], c["layout"])))
-        print("equivalent: smpirun -np %d -platform plat.xml -hostfile hf_%s %s ./c29coll %s %s run <scorefile> %d:%d" % (
-            world(c["grid"]), c["layout"], "" if c["algo"] == "-" else "--cfg=smpi/%s:%s" % (c["coll"], c["algo"]), c["coll"], c["grid"], c["id"], c["id"] + 1))
+        print("equivalent: smpirun -np %d -platform plat.xml -hostfile hf_%s %s --cfg=smpi/simulate-computation:no ./c29coll %s %s run <scorefile> sizes=%d-%d %s" % (
+            world(c["grid"]), c["layout"], "" if c["algo"] == "-" else "--cfg=smpi/%s:%s" % (c["coll"], c["algo"]), c["coll"], c["grid"],
+            c.get("minsize", 1), world(c["grid"]), " ".join("%d:%d" % r for r in ranges)))
         if res.complete and c["id"] not in res.bad:
             print("observed: completed, buffers equal the reference on every rank")
             return 0
-        if res.complete:
+        if c["id"] in res.bad:
             print("observed: BAD", res.bad[c["id"]])
+        if res.complete:
+            pass
         else:
             print("observed:", classify(res))
             print(res.err[-1500:])
